@@ -60,6 +60,8 @@ func checkC14(w *World, r *Report) {
 	r.rule("C14.presence", "while ranging over one map, every lookup in the other map is a comma-ok lookup whose ok result is branched on (otherwise an absent key equals a key bound to nil)")
 	r.rule("C14.kinds", "the equality dispatch has a dedicated case for every value struct of package types that has a Val field (Symbol, List, Vector, HashMap, Set), and none of these cases compares whole structs with ==")
 	r.rule("C14.gate", "before the dispatch the function returns false unless the dynamic types are identical or both operands are sequential; the sequential predicate accepts exactly the list and vector types")
+	r.rule("C14.go-equality", "Go's == / != on two lisp values is used only where neither can be a comparable struct that carries a source position (a Symbol read from text compares unequal to the same symbol read elsewhere): such values must go through Equal_Q's own case")
+	goEqualityRule(w, r, e, "C14.go-equality")
 	r.rule("C14.symmetric-shape", "every collection case compares the sizes of both operands before comparing elements, and the two sequence cases recurse through the same function element by element")
 	r.rule("C14.reg", "= is registered as the equality function applied to both arguments in order, result returned unchanged")
 	r.rule("C14.site", "no instruction of the equality function can panic (index/assertion guarded by the gate, the case and the size test)")
@@ -479,6 +481,8 @@ func checkC13(w *World, r *Report) {
 	r.rule("C13.vocab", "every builtin named in the property is registered, no name is registered twice with different functions inside one loader, and every free symbol of the embedded lisp headers is a special form, a local binding, a definition of a header or a registered name")
 	r.rule("C13.domain", "every registered builtin runs behind the binder's recover barrier (wrong kinds and out-of-range indices surface as errors), and every slice expression with an explicit upper bound on container storage is dominated by a guard upper <= len (Go only checks cap: an unguarded bound returns elements past the end)")
 	r.rule("C13.maplookup", "builtins that must distinguish 'absent' from 'bound to nil' (contains?, get on sets, rename-keys) use comma-ok lookups")
+	r.rule("C13.identity", "the builtins that hand one of their arguments back unchanged are exactly the reviewed ones (where the model's result is the argument itself); every other builtin builds its result, so that its kind and contents are decided by the builtin and not by what the caller happened to pass")
+	identityRule(w, r, "C13.identity")
 	r.rule("C13.mapiter", "inside a loop ranging over a map, no other map is both read (or deleted from) and written: the result must not depend on Go's random iteration order")
 	names := w.registeredNames()
 	want := propertyBuiltins()
@@ -828,6 +832,8 @@ func checkC17(w *World, r *Report) {
 	r.rule("C17.provenance", "every function that builds a Position from other positions copies each field from the like-named field of its source (Close: begin fields and module from the opener, end fields from the closer); in the tokenizer row fields come from the scanner's Line and column fields from its Column, with no arithmetic on rows")
 	r.rule("C17.module", "every Position built by the tokenizer carries the module of the cursor given to Read_str; the ';; $MODULE' header is consulted only when that cursor has no module, and its pattern captures the whole remainder of the header line as written by load-file")
 	r.rule("C17.span", "the collection returned by read_list carries open.Close(closer): open is a copy of the first token's cursor, closer the cursor of the token that matched the end; reader-macro forms carry a cursor too")
+	r.rule("C17.reposition", "NewLispError sets the cursor of the error it returns to GetPosition(form) on every path: an error a builtin returns with coordinates of its own (read-string, eval) is re-positioned at the failing call form")
+	newLispErrorRule(w, r, "C17.reposition")
 	r.rule("C17.carrier", "errors coming back from nested evaluation are not re-positioned on the way up (the innermost position survives): shared with C03.propagate; the lookup error of a symbol is positioned at the symbol")
 	// provenance in types/positiontype.go
 	np := 0
@@ -1119,6 +1125,47 @@ func checkC17(w *World, r *Report) {
 			}
 		}
 		r.check(okSym, "C17.carrier", m.evalAst, "position of a failed lookup", m.evalAst.Pos(), "the symbol being evaluated", "the lookup error is not positioned at the symbol")
+		// inside the evaluation loop an error is positioned at the form of the current iteration
+		r.rule("C17.current-form", "every error EVAL positions inside its loop takes the position from a value computed in the current iteration (the form being evaluated or a part of it), never from the form EVAL was entered with or from anything computed before the loop: after a tail call that form belongs to the caller")
+		ncf := 0
+		for _, b := range m.EVAL.Blocks {
+			if !m.header.Dominates(b) {
+				continue
+			}
+			for _, in := range b.Instrs {
+				c, ok := in.(*ssa.Call)
+				if !ok || c.Call.StaticCallee() == nil || c.Call.StaticCallee().Name() != "NewLispError" || len(c.Call.Args) != 2 {
+					continue
+				}
+				ncf++
+				carrier := unboxed(c.Call.Args[1])
+				stale := ""
+				switch x := carrier.(type) {
+				case *ssa.Const:
+				case *ssa.Parameter:
+					stale = "the form EVAL was entered with"
+				case ssa.Instruction:
+					if x.Block() != nil && !m.header.Dominates(x.Block()) {
+						stale = "a value computed before the loop (" + describeVal(e, carrier, 0) + ")"
+					}
+					if ld, ok := carrier.(*ssa.UnOp); ok && ld.Op == token.MUL {
+						// a variable: every assignment must happen inside the loop
+						if cell := cellOf(ld.X); cell != nil {
+							for _, st := range e.storesTo(cell) {
+								if st.Parent() == m.EVAL && !m.header.Dominates(st.Block()) {
+									if p, isP := st.Val.(*ssa.Parameter); isP && p == m.astParam {
+										continue // the form variable itself is loop-carried
+									}
+									stale = "a variable assigned before the loop"
+								}
+							}
+						}
+					}
+				}
+				r.check(stale == "", "C17.current-form", m.EVAL, "position carrier of an error raised in the loop", c.Pos(), "computed in the current iteration", "the error is positioned at "+stale+": after tail calls that is the caller's form, so the reported line lies in another top-level form")
+			}
+		}
+		r.floor("C17.current-form", "errors positioned inside the evaluation loop", ncf, 10)
 	} else {
 		r.undecided("C17.carrier", nil, "evaluator model", token.NoPos, m.why)
 	}
@@ -1406,6 +1453,8 @@ func checkC19(w *World, r *Report) {
 	} else {
 		r.undecided("C19.repl", nil, "REPL", token.NoPos, "function no longer resolves")
 	}
+	positionBlindRule(w, r, "C19.position-blind")
+	slurpVerbatimRule(w, r, "C19.slurp")
 	r.add("C19.nil-cursor", nil, "nil guards of optional positions", token.NoPos, "info", "decided by the may-panic audits of C04 and C05 (optional pointer fields are may-nil there)")
 	r.rule("C19.print-reread", "the re-read-from-printed-form route: the printer's escape table and the reader's un-escape table are inverse (shared with C06.escape)")
 	escapeAgreement(w, r, e, "C19.print-reread")
@@ -1528,6 +1577,7 @@ func checkC20(w *World, r *Report) {
 		r.undecided("C20.siblings", nil, "lib/call.call", token.NoPos, "function no longer resolves")
 		return
 	}
+	c20EntryRules(w, r, e, callFn)
 	argsCtx, args := w.Fn("lib/call", "_args_ctx"), w.Fn("lib/call", "_args")
 	nilnil, nilerr, reserr := w.Fn("lib/call", "_nil_nil"), w.Fn("lib/call", "_nil_error"), w.Fn("lib/call", "_result_error")
 	recov := w.Fn("lib/call", "_recover")
@@ -2192,4 +2242,411 @@ func unboxed(v ssa.Value) ssa.Value {
 			return v
 		}
 	}
+}
+
+// argumentAsIs: v is one of the function's lisp arguments handed back unchanged (the parameter, an element of
+// the variadic parameter, or a type assertion of one of them).
+func argumentAsIs(fn *ssa.Function, v ssa.Value, depth int) bool {
+	if depth > 8 {
+		return false
+	}
+	switch x := v.(type) {
+	case *ssa.Parameter:
+		return isMalType(x.Type())
+	case *ssa.MakeInterface:
+		return argumentAsIs(fn, x.X, depth+1)
+	case *ssa.ChangeInterface:
+		return argumentAsIs(fn, x.X, depth+1)
+	case *ssa.TypeAssert:
+		return argumentAsIs(fn, x.X, depth+1)
+	case *ssa.Extract:
+		if ta, ok := x.Tuple.(*ssa.TypeAssert); ok && x.Index == 0 {
+			return argumentAsIs(fn, ta.X, depth+1)
+		}
+	case *ssa.UnOp:
+		if x.Op != token.MUL {
+			return false
+		}
+		if ia, ok := x.X.(*ssa.IndexAddr); ok {
+			if p, ok := ia.X.(*ssa.Parameter); ok {
+				_, isSlice := p.Type().Underlying().(*types.Slice)
+				return isSlice
+			}
+		}
+		// a local that holds the (asserted) argument: single store
+		if al, ok := x.X.(*ssa.Alloc); ok {
+			var vals []ssa.Value
+			for _, ref := range *al.Referrers() {
+				if st, ok := ref.(*ssa.Store); ok && st.Addr == ssa.Value(al) {
+					vals = append(vals, st.Val)
+				}
+			}
+			if len(vals) == 1 {
+				// only when no field of the copy is changed afterwards
+				for _, ref := range *al.Referrers() {
+					if fa, ok := ref.(*ssa.FieldAddr); ok {
+						for _, u := range *fa.Referrers() {
+							if st, ok := u.(*ssa.Store); ok && st.Addr == ssa.Value(fa) {
+								return false
+							}
+						}
+					}
+				}
+				return argumentAsIs(fn, vals[0], depth+1)
+			}
+		}
+	case *ssa.Phi:
+		for _, op := range x.Edges {
+			if argumentAsIs(fn, op, depth+1) {
+				return true
+			}
+		}
+	}
+	return false
+}
+
+
+// identityBuiltins: builtins of lib/core for which returning an argument unchanged is the model's result.
+var identityBuiltins = map[string]string{
+	"get": "get on a set yields the member itself, which is the key that was asked for",
+	"seq": "seq of a non-empty list is that list",
+}
+
+func identityRule(w *World, r *Report, rule string) {
+	n := 0
+	seen := map[*ssa.Function]bool{}
+	for _, fn := range w.registeredFuncs() {
+		if seen[fn] || fnPkgPath(fn) != modPath+"/lib/core" {
+			continue
+		}
+		seen[fn] = true
+		for _, rt := range errorReturns(fn) {
+			ret := rt[0].(*ssa.Return)
+			v, _ := rt[1].(ssa.Value)
+			ev, _ := rt[2].(ssa.Value)
+			if v == nil || isNilConst(v) || (ev != nil && !isNilConst(ev)) {
+				continue
+			}
+			if !argumentAsIs(fn, v, 0) {
+				continue
+			}
+			n++
+			if reason, ok := identityBuiltins[fn.Name()]; ok {
+				r.ok(rule, fn, "argument returned unchanged", ret.Pos(), "reviewed: "+reason)
+			} else {
+				r.bad(rule, fn, "argument returned unchanged", ret.Pos(), fn.Name()+" hands one of its arguments back as its result: the result's kind (list or vector) and contents are then whatever was passed, and the remaining arguments are not processed")
+			}
+		}
+	}
+	r.floor(rule, "returns of an unchanged argument", n, 1)
+}
+
+
+// goEqualityRule: interface comparisons inside Equal_Q (and the functions of its package it is built from).
+func goEqualityRule(w *World, r *Report, e *Engine, rule string) {
+	eq := w.Fn("types", "Equal_Q")
+	if eq == nil {
+		r.undecided(rule, nil, "Equal_Q", token.NoPos, "function no longer resolves")
+		return
+	}
+	// comparable struct types of package types that hold a pointer (source position, metadata)
+	var risky []types.Type
+	sc := w.ByPath[modPath+"/types"].Types.Scope()
+	for _, name := range sc.Names() {
+		tn, ok := sc.Lookup(name).(*types.TypeName)
+		if !ok {
+			continue
+		}
+		st, ok := tn.Type().Underlying().(*types.Struct)
+		if !ok || !types.Comparable(tn.Type()) {
+			continue
+		}
+		for i := 0; i < st.NumFields(); i++ {
+			if _, isPtr := st.Field(i).Type().Underlying().(*types.Pointer); isPtr {
+				risky = append(risky, tn.Type())
+				break
+			}
+		}
+	}
+	// only types whose values actually become lisp values somewhere in the library (boxed into an interface)
+	boxed := map[string]bool{}
+	for _, fn := range w.Funcs {
+		if isTestFunc(w, fn) || !runtimePkg(fnPkgPath(fn)) {
+			continue
+		}
+		for _, b := range fn.Blocks {
+			for _, in := range b.Instrs {
+				if mi, ok := in.(*ssa.MakeInterface); ok {
+					boxed[mi.X.Type().String()] = true
+				}
+			}
+		}
+	}
+	var kept []types.Type
+	for _, T := range risky {
+		if boxed[T.String()] {
+			kept = append(kept, T)
+		}
+	}
+	risky = kept
+	n := 0
+	for _, fn := range w.withPkgHelpers(eq) {
+		for _, b := range fn.Blocks {
+			for _, in := range b.Instrs {
+				bo, ok := in.(*ssa.BinOp)
+				if !ok || (bo.Op != token.EQL && bo.Op != token.NEQ) {
+					continue
+				}
+				if !isMalType(bo.X.Type()) || !isMalType(bo.Y.Type()) || isNilConst(bo.X) || isNilConst(bo.Y) {
+					continue
+				}
+				n++
+				var open []string
+				for _, T := range risky {
+					if !e.notType(bo.X, T, b) && !e.notType(bo.Y, T, b) {
+						open = append(open, shortType(T))
+					}
+				}
+				r.check(len(open) == 0, rule, fn, "Go equality on two lisp values", bo.Pos(), "neither operand can be a position-carrying comparable struct here", "the operands can be "+strings.Join(open, ", ")+", which Go compares field by field including the source-position pointer: equal symbols read at different places compare unequal")
+			}
+		}
+	}
+	r.floor(rule, "Go equality comparisons of lisp values in Equal_Q", n, 1)
+	if len(risky) == 0 {
+		r.undecided(rule, nil, "position-carrying comparable structs", token.NoPos, "none found in package types (Symbol expected)")
+	}
+}
+
+// positionBlindRule: what a program computes must not depend on source positions (an AST built from Go has
+// none, the same program read from text has them): the Cursor of a lisp value is only ever carried along,
+// handed to position plumbing or stored into another Cursor, never compared.
+func positionBlindRule(w *World, r *Report, rule string) {
+	r.rule(rule, "in the evaluator, the builtins, the environment and the value types no comparison or branch takes the Cursor of a lisp value as an operand: positions are only carried, copied and handed to the error constructors (a program delivered without positions computes the same)")
+	n := 0
+	for _, fn := range w.Funcs {
+		p := fnPkgPath(fn)
+		if isTestFunc(w, fn) || !runtimePkg(p) || strings.HasSuffix(p, "/lisperror") || strings.HasSuffix(p, "/reader") || strings.HasSuffix(p, "/printer") {
+			continue
+		}
+		if fn.Signature.Recv() != nil && strings.HasSuffix(fn.Signature.Recv().Type().String(), "types.Position") {
+			continue
+		}
+		for _, b := range fn.Blocks {
+			for _, in := range b.Instrs {
+				var v ssa.Value
+				switch x := in.(type) {
+				case *ssa.Field:
+					if fieldName(x.X.Type(), x.Field) == "Cursor" {
+						v = x
+					}
+				case *ssa.UnOp:
+					if fa, ok := x.X.(*ssa.FieldAddr); ok && x.Op == token.MUL && fieldName(fa.X.Type(), fa.Field) == "Cursor" {
+						v = x
+					}
+				}
+				if v == nil {
+					continue
+				}
+				n++
+				compared := false
+				for _, ref := range *v.Referrers() {
+					if bo, ok := ref.(*ssa.BinOp); ok && (bo.Op == token.EQL || bo.Op == token.NEQ) {
+						compared = true
+					}
+				}
+				r.check(!compared, rule, fn, "use of a value's Cursor", in.Pos(), "carried or handed on, not compared", "the source position of a value takes part in a comparison: the same program delivered without positions (L-notation) or re-read from its printed form takes the other branch")
+			}
+		}
+	}
+	r.floor(rule, "reads of a Cursor field in the runtime packages", n, 3)
+}
+
+
+// slurpVerbatimRule: load-file evaluates what slurp returns; for the file route to mean the same as the text
+// route, slurp must return the file's bytes as they are.
+func slurpVerbatimRule(w *World, r *Report, rule string) {
+	r.rule(rule, "slurp returns the bytes read from the file converted to a string and nothing else (no line-ending or encoding normalisation): a program loaded from a file is the text that is in the file")
+	fn := w.Fn("lib/core", "slurp")
+	if fn == nil {
+		r.undecided(rule, nil, "slurp", token.NoPos, "function no longer resolves")
+		return
+	}
+	n := 0
+	for _, rt := range errorReturns(fn) {
+		ret := rt[0].(*ssa.Return)
+		v, _ := rt[1].(ssa.Value)
+		if v == nil || isNilConst(v) {
+			continue
+		}
+		n++
+		okV, why := false, describeVal(nil, v, 0)
+		if cv, ok := unboxed(v).(*ssa.Convert); ok {
+			if ex, ok := cv.X.(*ssa.Extract); ok && ex.Index == 0 {
+				if c, ok := ex.Tuple.(*ssa.Call); ok && c.Call.StaticCallee() != nil {
+					switch fnPkgPath(c.Call.StaticCallee()) + "." + c.Call.StaticCallee().Name() {
+					case "os.ReadFile", "io.ReadAll", "io/ioutil.ReadFile", "io/ioutil.ReadAll":
+						okV = true
+					}
+				}
+			}
+		}
+		r.check(okV, rule, fn, "value returned by slurp", ret.Pos(), "string(bytes read)", "slurp rewrites the file's text ("+why+"): the file route delivers a different program than the text route (multi-line strings change)")
+	}
+	r.floor(rule, "success returns of slurp", n, 1)
+}
+
+// c20EntryRules: the exported entry points forward their bounds; the context test covers every function with
+// at least one parameter.
+func c20EntryRules(w *World, r *Report, e *Engine, callFn *ssa.Function) {
+	r.rule("C20.forward", "every exported entry point of the binder hands its own bounds parameter (and namespace and function) on to the registration routine: bounds declared through any entry point are enforced")
+	nf := 0
+	for _, fn := range w.pkgFuncs("lib/call") {
+		if fn.Object() == nil || !fn.Object().Exported() || fn.Parent() != nil {
+			continue
+		}
+		for _, c := range staticCallsTo(fn, callFn) {
+			nf++
+			var problems []string
+			for _, p := range fn.Params {
+				// a parameter of the wrapper whose type occurs among the callee's parameters must be passed on
+				passed, wanted := false, false
+				for i, q := range callFn.Params {
+					if types.Identical(q.Type(), p.Type()) || (isPtrTo(q.Type(), p.Type())) {
+						wanted = true
+						if i < len(c.Call.Args) && derivesFromParamValue(c.Call.Args[i], p, 0) {
+							passed = true
+						}
+					}
+				}
+				if wanted && !passed {
+					problems = append(problems, p.Name())
+				}
+			}
+			r.check(len(problems) == 0, "C20.forward", fn, "arguments handed to the registration routine", c.Pos(), "every parameter forwarded", "parameter(s) "+strings.Join(problems, ", ")+" of the entry point are not handed on: bounds declared through "+fn.Name()+" are dropped, the function is invoked with any number of arguments")
+		}
+	}
+	r.floor("C20.forward", "entry points calling the registration routine", nf, 2)
+
+	r.rule("C20.context-test", "the test for a leading context parameter is applied to every function that has at least one parameter: the guard in front of In(0) demands NumIn() >= 1 and nothing more")
+	nt := 0
+	for _, b := range callFn.Blocks {
+		for _, in := range b.Instrs {
+			c, ok := in.(*ssa.Call)
+			if !ok || !c.Call.IsInvoke() || c.Call.Method.Name() != "In" || len(c.Call.Args) != 1 {
+				continue
+			}
+			k, ok := c.Call.Args[0].(*ssa.Const)
+			if !ok || k.Value == nil || k.Int64() != 0 {
+				continue
+			}
+			nt++
+			lb := int64(0)
+			for _, a := range knownConds(b) {
+				bo, ok := a.v.(*ssa.BinOp)
+				if !ok {
+					continue
+				}
+				x, y, op := bo.X, bo.Y, bo.Op
+				if _, isK := x.(*ssa.Const); isK {
+					x, y, op = y, x, flipOp(op)
+				}
+				nc, ok := x.(*ssa.Call)
+				kk, ok2 := y.(*ssa.Const)
+				if !ok || !ok2 || !nc.Call.IsInvoke() || nc.Call.Method.Name() != "NumIn" || nc.Call.Value != c.Call.Value || kk.Value == nil {
+					continue
+				}
+				v := kk.Int64()
+				if !a.pol {
+					op = negateOp(op)
+				}
+				switch op {
+				case token.GEQ:
+					lb = max64(lb, v)
+				case token.GTR:
+					lb = max64(lb, v+1)
+				case token.EQL:
+					lb = max64(lb, v)
+				case token.NEQ:
+					if v == 0 {
+						lb = max64(lb, 1)
+					}
+				}
+			}
+			r.check(lb <= 1, "C20.context-test", callFn, "guard in front of the context test", c.Pos(), "NumIn() >= 1", fmt.Sprintf("the context test is only applied to functions with at least %d parameters: a function whose only parameter is the context gets no context injected (its lisp argument lands in the context slot)", lb))
+		}
+	}
+	r.floor("C20.context-test", "In(0) tests in the registration routine", nt, 1)
+}
+
+func isPtrTo(pt, t types.Type) bool {
+	p, ok := pt.Underlying().(*types.Pointer)
+	return ok && types.Identical(p.Elem(), t)
+}
+
+// derivesFromParamValue: v is the parameter, its address (spilled to a cell) or a reslice of it.
+func derivesFromParamValue(v ssa.Value, p *ssa.Parameter, depth int) bool {
+	if v == ssa.Value(p) {
+		return true
+	}
+	if depth > 5 {
+		return false
+	}
+	switch x := v.(type) {
+	case *ssa.Slice:
+		return derivesFromParamValue(x.X, p, depth+1)
+	case *ssa.Alloc:
+		for _, ref := range *x.Referrers() {
+			if st, ok := ref.(*ssa.Store); ok && st.Addr == ssa.Value(x) && st.Val == ssa.Value(p) {
+				return true
+			}
+		}
+	case *ssa.UnOp:
+		if x.Op == token.MUL {
+			return derivesFromParamValue(x.X, p, depth+1)
+		}
+	case *ssa.MakeInterface:
+		return derivesFromParamValue(x.X, p, depth+1)
+	case *ssa.ChangeInterface:
+		return derivesFromParamValue(x.X, p, depth+1)
+	}
+	return false
+}
+
+func flipOp(op token.Token) token.Token {
+	switch op {
+	case token.LSS:
+		return token.GTR
+	case token.GTR:
+		return token.LSS
+	case token.LEQ:
+		return token.GEQ
+	case token.GEQ:
+		return token.LEQ
+	}
+	return op
+}
+
+func negateOp(op token.Token) token.Token {
+	switch op {
+	case token.LSS:
+		return token.GEQ
+	case token.GEQ:
+		return token.LSS
+	case token.GTR:
+		return token.LEQ
+	case token.LEQ:
+		return token.GTR
+	case token.EQL:
+		return token.NEQ
+	case token.NEQ:
+		return token.EQL
+	}
+	return op
+}
+
+func max64(a, b int64) int64 {
+	if a > b {
+		return a
+	}
+	return b
 }
